@@ -71,13 +71,15 @@ TIE_THEOREMS = {".IsReservedWord": "IsReservedWord_eq", "File.isLocal": "isLocal
                 "File.renderImports": "renderImports_src_eq_model",
                 "token.isNull": "token_isNull_eq", "comment.isNull": "comment_isNull_eq", "Group.isNullItems": "Group_isNullItems_eq",
                 "Group.isNull": "Group_isNull_eq", "Statement.isNull": "Statement_isNull_eq", "Dict.isNull": "Dict_isNull_eq",
-                "Statement.render": "Statement_render_eq", "Group.renderItems": "Group_renderItems_eq", "Group.render": "Group_render_eq"}
+                "Statement.render": "Statement_render_eq", "Group.renderItems": "Group_renderItems_eq", "Group.render": "Group_render_eq",
+                "File.Render": "File_Render_eq", "Statement.RenderWithFile": "Statement_RenderWithFile_eq",
+                "Group.RenderWithFile": "Group_RenderWithFile_eq", "File.Save": "File_Save_eq"}
 syntactic_tie = None
 escalate = 1
 if prop in TIE_PROPS:
     gen = open(LEAN + "/JenVerif/Gen/SrcRegistry.lean").read()
     translated = {m.group(1): m.group(2) == "true" for m in re.finditer(r'\("([^"]+)", (true|false)\)', gen)}
-    rct, tie_out = sh("lake build JenVerif.Tie.Registry", cwd=LEAN, timeout=3000)
+    rct, tie_out = sh("lake build JenVerif.Tie.All", cwd=LEAN, timeout=3000)
     bad_thms, bad_files = set(), set()
     if rct:
         for m in re.finditer(r"error: (JenVerif/Tie/\S+?\.lean):(\d+):(\d+)", tie_out):
@@ -94,6 +96,7 @@ if prop in TIE_PROPS:
     THM_FILE.update({"guessAlias_eq": "JenVerif/Tie/GuessAliasSrc.lean", "register_src_eq_model": "JenVerif/Tie/Registry.lean",
                      "comment_render_eq": "JenVerif/Tie/TextSrc.lean", "tag_isNull_eq": "JenVerif/Tie/TextSrc.lean", "tag_render_eq": "JenVerif/Tie/TextSrc.lean",
                      "renderImports_src_eq_model": "JenVerif/Tie/Registry.lean"})
+    THM_FILE.update({t: "JenVerif/Tie/EntrySrc.lean" for t in ("File_Render_eq", "Statement_RenderWithFile_eq", "Group_RenderWithFile_eq", "File_Save_eq")})
     THM_FILE.update({t: "JenVerif/Tie/RenderSrc.lean" for t in ("Statement_render_eq", "Group_renderItems_eq", "Group_render_eq")})
     THM_FILE.update({t: "JenVerif/Tie/NullSrc.lean" for t in ("token_isNull_eq", "comment_isNull_eq", "Group_isNullItems_eq", "Group_isNull_eq", "Statement_isNull_eq", "Dict_isNull_eq")})
     DEPS = {"JenVerif/Tie/RegistrySrc.lean": [], "JenVerif/Tie/GuessAliasSrc.lean": [],
@@ -101,6 +104,7 @@ if prop in TIE_PROPS:
             "JenVerif/Tie/RenderSrc.lean": ["JenVerif/Tie/RegistrySrc.lean", "JenVerif/Tie/NullSrc.lean"],
             "JenVerif/Tie/Registry.lean": ["JenVerif/Tie/RegisterSrc.lean", "JenVerif/Tie/GuessAliasSrc.lean", "JenVerif/Tie/RegistrySrc.lean",
                                            "JenVerif/Tie/TextSrc.lean", "JenVerif/Tie/ImportsSrc.lean", "JenVerif/Tie/NullSrc.lean", "JenVerif/Tie/RenderSrc.lean"]}
+    DEPS["JenVerif/Tie/EntrySrc.lean"] = ["JenVerif/Tie/Registry.lean"] + DEPS["JenVerif/Tie/Registry.lean"]
     gen_broken = rct and ("Gen/SrcRegistry.lean" in tie_out and "error" in tie_out and not bad_files)
     for fn_, thm in TIE_THEOREMS.items():
         tf = THM_FILE[thm]
@@ -146,7 +150,7 @@ tie_proved = syntactic_tie is not None and all(v.startswith("proved") for v in s
 if not rc and obligations:
     audit = "import JenVerif.Props.%s\n" % prop + "".join("#print axioms %s.%s\n" % (prop, n) for n in obligations)
     if tie_proved:
-        audit = "import JenVerif.Tie.Registry\n" + audit + "".join("#print axioms Tie.%s\n" % t for t in sorted(set(TIE_THEOREMS.values()) | {"register_src_keeps_invariant", "register_src_fuel_stable", "renderImports_src_of_inv"}))
+        audit = "import JenVerif.Tie.All\n" + audit + "".join("#print axioms Tie.%s\n" % t for t in sorted(set(TIE_THEOREMS.values()) | {"register_src_keeps_invariant", "register_src_fuel_stable", "renderImports_src_of_inv", "File_Render_eq_of_inv", "File_Save_eq_of_inv"}))
     ap = "%s/audit_%s.lean" % (BUILD, prop)
     open(ap, "w").write(audit)
     rca, aout = sh("lake env lean %s" % ap, cwd=LEAN, timeout=600)
@@ -156,7 +160,7 @@ if not rc and obligations:
     bad = {n: a for n, a in axioms.items() if set(a) - ALLOWED_AXIOMS}
     missing = [n for n in obligations if n not in axioms]
     if tie_proved and "register_src_eq_model" not in axioms: missing.append("Tie.register_src_eq_model")
-    tie_axioms = {k: v for k, v in axioms.items() if k in TIE_THEOREMS.values() or k.startswith("register_src_") or k.startswith("renderImports_src_")}
+    tie_axioms = {k: v for k, v in axioms.items() if k in TIE_THEOREMS.values() or k.startswith("register_src_") or k.startswith("renderImports_src_") or k.endswith("_of_inv")}
     for k in tie_axioms: axioms.pop(k)
     bad.update({n: a for n, a in tie_axioms.items() if set(a) - ALLOWED_AXIOMS})
     if bad or grep_hits or rca or missing:
